@@ -333,6 +333,7 @@ class EnumSpec:
     attr_order_seed: int = 0
     macro_params: List[Tuple[str, str, str]] = field(default_factory=list)   # (preceding text, token text, fragment kind): passed as macro arguments
     strum_path: str = "strum"      # path used in the derive list
+    nest: bool = False             # declare the enum inside a nested module that the unit re-exports (`pub use defs_x::*`)
     tags: List[str] = field(default_factory=list)   # feature signature for evidence / signatures
 
     def enum_items(self):
@@ -394,7 +395,7 @@ class EnumSpec:
             lines.append(v.render())
         lines.append("}")
         if self.generics:
-            lines.append("pub type T%s = %s%s;" % (self.name, self.name, inst.replace("::<", "<")))
+            lines.append("%s type T%s = %s%s;" % (self.vis if self.vis.startswith("pub(") else "pub", self.name, self.name, inst.replace("::<", "<")))
         src = "\n".join(lines)
         if self.macro_params:
             # the item is produced by a macro_rules! template; some of its tokens arrive as macro arguments
@@ -406,6 +407,9 @@ class EnumSpec:
                     pats.append("$p%d:%s" % (i, frag))
                     args.append(text)
             src = "macro_rules! decl_%s { (%s) => {\n%s\n} }\ndecl_%s!(%s);" % (self.name.lower(), ", ".join(pats), src, self.name.lower(), ", ".join(args))
+        if self.nest:
+            # everything the derives generate next to the enum must be usable from outside the enum's own module
+            src = "pub mod defs_%s {\n    use super::*;\n%s\n}\npub use defs_%s::*;" % (self.name.lower(), src, self.name.lower())
         return src
 
     def render_bare(self):
@@ -422,6 +426,7 @@ class EnumSpec:
         b.const_into_str = False
         b.crate_path = None
         b.macro_params = []
+        b.nest = False
         b.extra_enum_attrs = [a for a in b.extra_enum_attrs if "strum" not in a]
         for v in b.variants:
             v.serialize, v.to_string = [], None
